@@ -261,6 +261,7 @@ namespace smt
         lit p;
         size_t lits_size = 0;
         bool found_true = false;
+        std::vector<lit> reps; // the undecided literals which are given more than once..
         std::string s_expr = "amo";
         for (auto it0 = ls.cbegin(); it0 != ls.cend(); ++it0)
             if (value(*it0) == True)
@@ -285,6 +286,8 @@ namespace smt
                 s_expr += to_string(p);
                 ls[lits_size++] = p;
             }
+            else if (value(*it0) != False && (reps.empty() || reps.back() != p))
+                reps.push_back(p); // this literal is given more than once: when true it counts at least twice..
         ls.resize(lits_size);
 
         if (found_true)
@@ -292,6 +295,18 @@ namespace smt
             for (auto &l : ls)
                 l = !l;
             return new_conj(std::move(ls));
+        }
+
+        if (!reps.empty())
+        { // the repeated literals must be false, at most one of the other ones can be true..
+            std::vector<lit> rest, cj;
+            for (const auto &l : ls)
+                if (std::find(reps.cbegin(), reps.cend(), l) == reps.cend())
+                    rest.push_back(l);
+            for (const auto &r : reps)
+                cj.push_back(!r);
+            cj.push_back(new_at_most_one(std::move(rest)));
+            return new_conj(std::move(cj));
         }
 
         if (ls.empty() || ls.size() == 1) // an empty or a singleton at-most-one is assumed to be satisfied..
@@ -344,6 +359,7 @@ namespace smt
         lit p;
         size_t j = 0;
         bool found_true = false;
+        std::vector<lit> reps; // the undecided literals which are given more than once..
         std::string s_expr = "^";
         for (auto it0 = ls.cbegin(); it0 != ls.cend(); ++it0)
             if (value(*it0) == True)
@@ -368,6 +384,8 @@ namespace smt
                 s_expr += to_string(p);
                 ls[j++] = p;
             }
+            else if (value(*it0) != False && (reps.empty() || reps.back() != p))
+                reps.push_back(p); // this literal is given more than once: when true it counts at least twice..
         ls.resize(j);
 
         if (found_true)
@@ -375,6 +393,18 @@ namespace smt
             for (auto &l : ls)
                 l = !l;
             return new_conj(std::move(ls));
+        }
+
+        if (!reps.empty())
+        { // the repeated literals must be false, exactly one of the other ones must be true..
+            std::vector<lit> rest, cj;
+            for (const auto &l : ls)
+                if (std::find(reps.cbegin(), reps.cend(), l) == reps.cend())
+                    rest.push_back(l);
+            for (const auto &r : reps)
+                cj.push_back(!r);
+            cj.push_back(new_exct_one(std::move(rest)));
+            return new_conj(std::move(cj));
         }
 
         if (ls.empty()) // an empty exact-one is assumed to be unsatisfable..
